@@ -230,21 +230,24 @@ structure St (F : Type) where
   df : DF F := {}
   count : Nat := 0
 
+/-- second half of the loop body of `read_csv`: `rec'` is the record with the output cell first -/
+def csvProceed {F} (cfg : Cfg) (o : NumOracle F) (hasHdr : Bool) (st : St F) (rec' : List Str) :
+    M (St F) :=
+  (if st.count < 10 then build cfg o st.df.cols rec' hasHdr else pure st.df.cols) >>= fun cols =>
+  (if !hasHdr || st.count != 0 then readRecord o { st.df with cols := cols } rec' true
+   else pure { st.df with cols := cols }) >>= fun df =>
+  pure { df := df, count := st.count + 1 }
+
 /-- body of the `for (auto record : parser …)` loop of `read_csv` -/
 def csvStep {F} (cfg : Cfg) (o : NumOracle F) (outIdx : Option Nat) (hasHdr : Bool)
-    (st : St F) (record : List Str) : M (St F) := do
-  let proceed (rec' : List Str) : M (St F) := do
-    let cols ← if st.count < 10 then build cfg o st.df.cols rec' hasHdr else pure st.df.cols
-    let df := { st.df with cols := cols }
-    let df ← if !hasHdr || st.count != 0 then readRecord o df rec' true else pure df
-    pure { df := df, count := st.count + 1 }
+    (st : St F) (record : List Str) : M (St F) :=
   match outIdx with
   | some k =>
     if cfg.guards && k ≥ record.length then pure st          -- fix: malformed record skipped
     else do
       let rec' ← rotate? .rotateCsv record k
-      proceed rec'
-  | none => proceed ([] :: record)
+      csvProceed cfg o hasHdr st rec'
+  | none => csvProceed cfg o hasHdr st ([] :: record)
 
 /-- `read_csv` once the records are known -/
 def readCsvRecs {F} (cfg : Cfg) (o : NumOracle F) (outIdx : Option Nat) (hasHdr : Bool)
